@@ -25,6 +25,13 @@ func (e *Engine) verify(fn *ssa.Function, ctr *Contract, opts *genOptions) *gen 
 }
 
 func (e *Engine) verifyWith(fn *ssa.Function, ctr *Contract, opts *genOptions, setup func(*gen)) *gen {
+	if ctr != nil && ctr.AstValid && setup == nil {
+		// contracts verified under the theory ast-valid get the sweep's entry assumption (tree-node arguments);
+		// the call sites discharge it in the C01 sweep
+		cp := *ctr
+		cp.Requires = append(append([]*Clause{}, ctr.Requires...), e.sweepContract(fn, "").Requires...)
+		ctr = &cp
+	}
 	g1 := e.newGen(fn, ctr, nil)
 	if setup != nil {
 		setup(g1)
@@ -125,6 +132,10 @@ func main() {
 				ctr := e.ctrs[funcKey(fn)]
 				if ctr == nil {
 					ctr = e.sweepContract(fn, "C01")
+				} else {
+					cp := *ctr
+					cp.Requires = append(append([]*Clause{}, ctr.Requires...), e.sweepContract(fn, "C01").Requires...)
+					ctr = &cp
 				}
 				var ics []*Contract
 				if fn.Signature.Recv() != nil {
